@@ -6,6 +6,7 @@
 import AeicProofs.Lemmas.ThreadGuard
 import AeicProofs.Lemmas.GuardLang
 import AeicModel.Generated.Guard
+import AeicModel.Generated.GuardReach
 
 namespace C20
 open Aeic.ThreadGuard
@@ -71,22 +72,61 @@ example : (run (G.init true) [0, 1, 0, 1, 0, 0, 1, 1, 1, 1, 1, 1, 1, 1]).pc 0 = 
     (run (G.init true) [0, 1, 0, 1, 0, 0, 1, 1, 1, 1, 1, 1, 1, 1]).pc 1 = .done false := by decide
 
 
-/-! ### the guard as the translator reads it from the source, re-checked on every build -/
+/-! ### the ownership code as the translator reads it from the source, re-checked on every build -/
 open Aeic.GuardLang in
-/-- **Mutual exclusion for the guard program regenerated from `store.py`.** For the statements the translator extracts
-    from `TrajectoryStore.__init__` (`Aeic.Gen.guardProgram`), compiled to instructions, no interleaving of two racing
-    threads — schedule of any length — ends with both constructors succeeding. The kernel computes the set of reachable
-    states, checks that it is closed under both threads' steps and contains no bad state; `safe_of_closed` lifts that to all
-    schedules. (If the source is changed so that the race is possible again, this theorem no longer checks.) -/
-theorem generated_guard_mutual_exclusion (sched : List Bool) :
-    bothOk (compile Aeic.Gen.guardProgram) (run (compile Aeic.Gen.guardProgram) S.init sched) = false :=
-  safe_of_closed _ (reach (compile Aeic.Gen.guardProgram) 400 [S.init]) (by decide +kernel) (by decide +kernel)
-    (by decide +kernel) sched
+/-- **Mutual exclusion for the ownership code regenerated from `store.py`.** For the statements the translator extracts
+    from `TrajectoryStore.__init__` and the helpers it calls (`Aeic.Gen.guardProgram`), compiled to instructions: under no
+    interleaving of two threads — a schedule of any length, at the granularity of single shared-memory accesses, in which
+    each thread may call the constructor any number of times and any call may fail after the guard — do both threads ever
+    have a successful constructor call. `Aeic.Gen.guardReach` is a candidate invariant computed by an untrusted search;
+    the kernel checks that it contains the initial state, is closed under every step of either thread (with either choice
+    bit) and contains no bad state; `safe_of_closed` lifts that to all schedules. If the source is changed so that two
+    threads can both obtain a store, this theorem no longer checks. -/
+theorem generated_guard_mutual_exclusion (sched : List Act) :
+    bothOk (run (compile Aeic.Gen.guardProgram) S.init sched) = false :=
+  safe_of_closed _ Aeic.Gen.guardReach (by decide +kernel) (by decide +kernel) (by decide +kernel) sched
 
 open Aeic.GuardLang in
-/-- the same pipeline on the original, unlocked guard finds the race (so the check above is not vacuous) -/
+/-- in particular the first race: two threads each running the constructor once never both reach its successful end -/
+theorem generated_guard_first_race (sched : List Act) :
+    ((run (compile Aeic.Gen.guardProgram) S.init sched).has0 &&
+      (run (compile Aeic.Gen.guardProgram) S.init sched).has1) = false :=
+  generated_guard_mutual_exclusion sched
+
+namespace Witness
+open Aeic.GuardLang
+
+/-- the original guard (check, then claim, no lock) -/
+def unlocked : List GStmt :=
+  [.readOwner 0, .ite (.not (.isNone (.loc 0))) [.readOwner 1, .ite (.not (.eq (.loc 1) .me)) [.raise] []] [.setOwner .me],
+   .choice [] [.raise]]
+
+/-- the locked guard followed by an error path that gives the claim back when opening a file fails -/
+def releasing : List GStmt :=
+  [.withLock [.readOwner 0, .ite (.not (.isNone (.loc 0))) [.readOwner 1, .ite (.not (.eq (.loc 1) .me)) [.raise] []]
+      [.setOwner .me]],
+   .choice [.choice [] [.withLock [.readOwner 2, .ite (.eq (.loc 2) .me) [.setOwner .none] []], .raise]] [],
+   .choice [] [.raise]]
+
+end Witness
+
+open Aeic.GuardLang in
+/-- the same semantics exhibits the race of the original, unlocked guard (so the check above is not vacuous): thread 0
+    reads "no owner", thread 1 reads "no owner", both claim, both succeed -/
 theorem unlocked_guard_race_reachable :
-    (reach (compile [.ifOwnerSet [.ifOwnerNotMe [.raise] []] [.setOwnerMe]]) 400 [S.init]).any
-      (bothOk (compile [.ifOwnerSet [.ifOwnerNotMe [.raise] []] [.setOwnerMe]])) = true := by decide +kernel
+    bothOk (run (compile Witness.unlocked) S.init
+      [(false, false), (false, false), (true, false), (false, false), (false, false), (false, false), (false, false),
+       (true, false), (true, false), (true, false), (true, false), (true, false)]) = true := by decide +kernel
+
+open Aeic.GuardLang in
+/-- … and the history-dependent failure of an error path that releases the claim: thread 0 constructs a store, calls the
+    constructor again, the open fails and the handler clears the owner; thread 1 then constructs a store too -/
+theorem released_claim_race_reachable :
+    bothOk (run (compile Witness.releasing) S.init
+      [(false, false), (false, false), (false, false), (false, false), (false, false), (false, true), (false, false),
+       (false, false), (false, false), (false, false), (false, false), (false, false), (false, false), (false, false),
+       (false, false), (false, false), (false, false), (false, true), (false, false), (false, false), (false, false),
+       (false, false), (false, false), (false, false), (true, false), (true, false), (true, false), (true, false),
+       (true, false), (true, true), (true, false), (true, false), (true, false)]) = true := by decide +kernel
 
 end C20
